@@ -47,6 +47,11 @@ impl Flag {
 fn prefix(a: &Vec<u8>, j: usize) -> (r: &[u8]) requires j <= a@.len(), ensures r@ == a@.subrange(0, j as int), { &a[..j] }
 #[verifier::external_body]
 fn extend_from_slice(v: &mut Vec<u8>, s: &[u8]) ensures final(v)@ == old(v)@ + s@, { v.extend_from_slice(s) }
+// `[0u8; N]` / `vec![0u8; N]`: N zero bytes
+#[verifier::external_body]
+fn zeroed(n: usize) -> (r: Vec<u8>) ensures r@.len() == n { unimplemented!() }
+#[verifier::external_body]
+fn min_usize(a: usize, b: usize) -> (r: usize) ensures r == (if a <= b { a } else { b }) { a.min(b) }
 #[verifier::external_body]
 fn saturating_add(a: usize, b: usize) -> (r: usize) ensures r == (if a + b > usize::MAX { usize::MAX as int } else { a + b }) { a.saturating_add(b) }
 '''
@@ -116,11 +121,15 @@ UNIT = VUnit(
                     "res is Ok && total.len() <= cap ==> res->Ok_0@ =~= total && final(overflow).v@ == old(overflow).v@",
                     "res is Ok && res->Ok_0@.len() < total.len() ==> final(overflow).v@ != 0 && (old(overflow).v@ == 0 ==> final(overflow).v@ == overflow_code)"],
            loops={1: {"invariant_except_break": ["buf@ + reader.rest() =~= total", "overflow.v@ == old(overflow).v@"],
-                      "invariant": ["chunk@.len() == 8192", "max == cap as usize", "buf@.len() <= cap", "overflow_code != 0", "buf@.is_prefix_of(total)"],
+                      "invariant": ["chunk@.len() > 0", "max == cap as usize", "buf@.len() <= cap", "overflow_code != 0", "buf@.is_prefix_of(total)"],
                       "ensures": ["buf@.len() < total.len() ==> overflow.v@ != 0 && (old(overflow).v@ == 0 ==> overflow.v@ == overflow_code)",
                                   "total.len() <= cap ==> buf@ =~= total && overflow.v@ == old(overflow).v@"]}},
-           rewrites=[Rw("R8", r"let mut buf = std::vec::Vec::with_capacity\(\(cap\.min\(8_192\)\) as usize\);", "let mut buf: Vec<u8> = Vec::new();", min_matches=1),
-                     Rw("R8", r"let mut chunk = \[0u8; 8_192\];", "let mut chunk: Vec<u8> = Vec::new(); chunk.resize(8192, 0u8);", min_matches=1),
+           rewrites=[Rw("R8", r"let mut buf = std::vec::Vec::with_capacity\([^;]*\);", "let mut buf: Vec<u8> = Vec::new();", min_matches=1),   # capacity is a hint
+                     # the read buffer, however it is sized: the Read model requires it to be non-empty (an empty buffer makes read return
+                     # Ok(0), which the loop would take for end of input)
+                     Rw("R8", r"let mut chunk = \[0u8; ([^\]]+)\];", r"let mut chunk: Vec<u8> = zeroed(\1);", min_matches=0),
+                     Rw("R8", r"let mut chunk = vec!\[0u8; ([^\]]+)\];", r"let mut chunk: Vec<u8> = zeroed(\1);", min_matches=0),
+                     Rw("R5", r"\b(\w+)\.min\(([^()]*)\)", r"min_usize(\1, \2)", min_matches=0),
                      Rw("R5", r"buf\.len\(\)\.saturating_add\(n\)", "saturating_add(buf.len(), n)", min_matches=1),
                      Rw("R2", r"let _ = overflow\.compare_exchange\(0, overflow_code, Ordering::SeqCst, Ordering::SeqCst\);", "overflow.set_if_clear(overflow_code);", min_matches=1),
                      Rw("R5", r"buf\.extend_from_slice\(&chunk\[\.\.n\]\)", "extend_from_slice(&mut buf, prefix(&chunk, n))", min_matches=1)],
